@@ -78,9 +78,11 @@ fn canon_frames(fs: &[Event]) -> Vec<u64> {
 /// from a chunked run
 #[derive(Default, Clone)]
 struct Tables {
+    compat: bool,
     err: BTreeMap<String, String>,
     num: BTreeMap<String, Option<String>>,
-    val: BTreeMap<String, (Vec<String>, Vec<String>)>,
+    vs: BTreeMap<String, Vec<String>>,
+    vr: BTreeMap<String, Vec<String>>,
 }
 fn is_num_char(c: char) -> bool {
     c.is_ascii_digit() || matches!(c, '-' | '+' | '.' | 'e' | 'E')
@@ -120,30 +122,71 @@ fn validation(compat: bool) -> ValidationOptions {
         ValidationOptions::strict()
     }
 }
-/// (errors, response_errors) of schema validation for a value: the real decoder on the one-event rendering of the
-/// printed value without an event name (so no name-mismatch error is mixed in); in strict mode cross-checked
-/// against direct calls of the validators
-fn validation_of(v: &Value, compat: bool) -> ((Vec<String>, Vec<String>), Option<String>) {
-    let text = format!("data: {}\n\n", serde_json::to_string(v).unwrap());
-    let mut d = SseDecoder::new_with_validation(validation(compat));
-    let evs = d.push(&text);
-    if evs.len() != 1 || evs[0].kind != ParsedEventKind::Event || evs[0].data.as_ref() != Some(v) {
-        return ((vec![], vec![]), Some(format!("the one-event rendering of the value {} does not decode to one event with that value", v)));
+// ---- the id normalisation of ValidationOptions::compat_missing_item_ids, written again here from its description
+// (an item without a non-empty string `id`: function_call gets its call_id, else item_<index>; function_call_output gets
+// output_<call_id>, else output_<index>; the items of response.output are numbered by position; a
+// function_call_arguments.delta/done event without a non-empty string item_id gets item_<output_index>) — the repo's
+// own functions are private, and an independent version is what an oracle needs
+fn own_nonempty_str<'a>(o: &'a serde_json::Map<String, Value>, k: &str) -> Option<&'a str> {
+    match o.get(k) {
+        Some(Value::String(s)) if !s.is_empty() => Some(s.as_str()),
+        _ => None,
     }
-    let got = (evs[0].errors.clone(), evs[0].response_errors.clone());
-    if !compat {
-        let direct = (
-            rip_openresponses::validate_stream_event(v).err().unwrap_or_default(),
-            v.get("response").map(|r| rip_openresponses::validate_response_resource(r).err().unwrap_or_default()).unwrap_or_default(),
-        );
-        if direct != got {
-            return (got, Some(format!("strict validation errors of {} differ from the validators' own: {:?} vs {:?}", v, evs[0].errors, direct)));
+}
+fn own_normalize_item(item: &mut Value, index: Option<u64>) {
+    let Value::Object(o) = item else { return };
+    if own_nonempty_str(o, "id").is_some() {
+        return;
+    }
+    let (pfx_call, pfx_idx) = match o.get("type") {
+        Some(Value::String(t)) if t == "function_call" => ("", "item_"),
+        Some(Value::String(t)) if t == "function_call_output" => ("output_", "output_"),
+        _ => return,
+    };
+    let id = match (own_nonempty_str(o, "call_id"), index) {
+        (Some(c), _) => format!("{pfx_call}{c}"),
+        (None, Some(n)) => format!("{pfx_idx}{n}"),
+        (None, None) => return,
+    };
+    o.insert("id".into(), Value::String(id));
+}
+fn own_u64(v: Option<&Value>) -> Option<u64> {
+    match v {
+        Some(Value::Number(n)) => n.as_u64(),
+        _ => None,
+    }
+}
+fn own_normalize_event(v: &Value) -> Value {
+    let mut out = v.clone();
+    let Value::Object(o) = &mut out else { return out };
+    let idx = own_u64(o.get("output_index"));
+    if let Some(item) = o.get_mut("item") {
+        own_normalize_item(item, idx);
+    }
+    if let Some(Value::Object(r)) = o.get_mut("response") {
+        if let Some(Value::Array(items)) = r.get_mut("output") {
+            for (i, it) in items.iter_mut().enumerate() {
+                own_normalize_item(it, Some(i as u64));
+            }
         }
     }
-    (got, None)
+    let fca = matches!(o.get("type"), Some(Value::String(t)) if t == "response.function_call_arguments.delta" || t == "response.function_call_arguments.done");
+    if fca && own_nonempty_str(o, "item_id").is_none() {
+        if let Some(n) = idx {
+            o.insert("item_id".into(), Value::String(format!("item_{n}")));
+        }
+    }
+    out
+}
+/// what is validated for a value, and the two validators called directly: (validation data, errors, response_errors)
+fn own_validation(v: &Value, compat: bool) -> (Value, Vec<String>, Vec<String>) {
+    let vd = if compat { own_normalize_event(v) } else { v.clone() };
+    let errs = rip_openresponses::validate_stream_event(&vd).err().unwrap_or_default();
+    let rerrs = vd.get("response").map(|r| rip_openresponses::validate_response_resource(r).err().unwrap_or_default()).unwrap_or_default();
+    (vd, errs, rerrs)
 }
 impl Tables {
-    fn add_payload(&mut self, raw: &str, compat: bool, problems: &mut Vec<String>) {
+    fn add_payload(&mut self, raw: &str, _compat: bool, problems: &mut Vec<String>) {
         if raw == "[DONE]" {
             return;
         }
@@ -160,13 +203,16 @@ impl Tables {
             }
             Ok(v) => {
                 if rip_kernel::json_nesting(&v) <= rip_kernel::MAX_PAYLOAD_NESTING {
-                    let key = serde_json::to_string(&v).unwrap();
-                    if !self.val.contains_key(&key) {
-                        let (r, p) = validation_of(&v, compat);
-                        if let Some(p) = p {
-                            problems.push(p);
+                    // the validators' answers for the value as it is and as the harness normalises it (the model
+                    // normalises on its own and looks its result up here)
+                    let _ = &problems;
+                    for vd in [v.clone(), own_normalize_event(&v)] {
+                        let key = serde_json::to_string(&vd).unwrap();
+                        self.vs.entry(key).or_insert_with(|| rip_openresponses::validate_stream_event(&vd).err().unwrap_or_default());
+                        if let Some(r) = vd.get("response") {
+                            let key = serde_json::to_string(r).unwrap();
+                            self.vr.entry(key).or_insert_with(|| rip_openresponses::validate_response_resource(r).err().unwrap_or_default());
                         }
-                        self.val.insert(key, r);
                     }
                 }
             }
@@ -175,12 +221,15 @@ impl Tables {
     fn coq(&self) -> String {
         let e: Vec<(&String, &String)> = self.err.iter().collect();
         let n: Vec<(&String, &Option<String>)> = self.num.iter().collect();
-        let v: Vec<(&String, &(Vec<String>, Vec<String>))> = self.val.iter().collect();
+        let vs: Vec<(&String, &Vec<String>)> = self.vs.iter().collect();
+        let vr: Vec<(&String, &Vec<String>)> = self.vr.iter().collect();
         format!(
-            "{{| t_err := {}; t_num := {}; t_val := {} |}}",
+            "{{| t_compat := {}; t_err := {}; t_num := {}; t_vs := {}; t_vr := {} |}}",
+            coq_bool(self.compat),
             coq_list(&e, |(k, m)| format!("({}, {})", coq_str(k), coq_str(m))),
             coq_list(&n, |(k, m)| format!("({}, {})", coq_str(k), coq_opt(m, |s| coq_str(s)))),
-            coq_list(&v, |(k, (a, b))| format!("({}, ({}, {}))", coq_str(k), coq_list(a, |s| coq_str(s)), coq_list(b, |s| coq_str(s))))
+            coq_list(&vs, |(k, a)| format!("({}, {})", coq_str(k), coq_list(a, |s| coq_str(s)))),
+            coq_list(&vr, |(k, a)| format!("({}, {})", coq_str(k), coq_list(a, |s| coq_str(s))))
         )
     }
 }
@@ -214,7 +263,7 @@ fn tables_for(text: &str, compat: bool, extra: &[String]) -> (Tables, Vec<String
     let mut d = SseDecoder::new_with_validation(validation(compat));
     let mut evs = d.push(text);
     evs.extend(d.finish());
-    let mut t = Tables::default();
+    let mut t = Tables { compat, ..Tables::default() };
     let mut problems = vec![];
     for raw in extra {
         t.add_payload(raw, compat, &mut problems);
@@ -307,7 +356,44 @@ fn nested(open: &str, close: &str, inner: &str, n: usize) -> String {
 /// the data values of one event (one per data line); never start with whitespace, never end with CR
 fn gen_payload(r: &mut Rng) -> Vec<String> {
     let one = |s: String| vec![s];
-    match r.below(24) {
+    match r.below(28) {
+        // what the compat validation mode normalises: items without a (non-empty, string) id, by call_id or index;
+        // response.output items by position; function_call_arguments events without item_id
+        24 | 25 => {
+            let idx = *r.pick(&["0", "2", "1.0", "-1", "\"1\"", "18446744073709551615", "18446744073709551616", "null"][..]);
+            let idx_member = if r.chance(1, 5) { String::new() } else { format!("\"output_index\":{idx},") };
+            let id = *r.pick(&["", "", "\"id\":\"\",", "\"id\":\"fc_1\",", "\"id\":7,", "\"id\":null,"][..]);
+            let call = *r.pick(&["\"call_id\":\"c1\",", "\"call_id\":\"\",", "", "\"call_id\":5,"][..]);
+            let ty = *r.pick(&["function_call", "function_call", "function_call_output", "message", "reasoning"][..]);
+            let item = match r.below(8) {
+                0 => "7".to_string(),
+                1 => "[]".to_string(),
+                _ => format!("{{{id}{call}\"type\":\"{ty}\",\"name\":\"ls\",\"arguments\":\"{{}}\",\"output\":\"o\",\"status\":\"completed\"}}"),
+            };
+            let ety = *r.pick(&["response.output_item.added", "response.output_item.done"][..]);
+            one(format!("{{\"type\":\"{ety}\",\"sequence_number\":3,{idx_member}\"item\":{item}}}"))
+        }
+        26 => {
+            let it = |r: &mut Rng| {
+                let id = *r.pick(&["", "\"id\":\"\",", "\"id\":\"x\","][..]);
+                let call = *r.pick(&["\"call_id\":\"c9\",", ""][..]);
+                let ty = *r.pick(&["function_call", "function_call_output", "message"][..]);
+                format!("{{{id}{call}\"type\":\"{ty}\",\"name\":\"n\",\"arguments\":\"\",\"output\":\"\"}}")
+            };
+            let output = match r.below(5) {
+                0 => "null".to_string(),
+                1 => "{}".to_string(),
+                _ => format!("[{}]", (0..r.below(4)).map(|_| it(r)).collect::<Vec<_>>().join(",")),
+            };
+            let resp = if r.chance(1, 6) { "\"r\"".to_string() } else { format!("{{\"id\":\"resp_1\",\"object\":\"response\",\"output\":{output}}}") };
+            one(format!("{{\"type\":\"response.completed\",\"sequence_number\":9,\"response\":{resp}}}"))
+        }
+        27 => {
+            let idx = *r.pick(&["\"output_index\":0,", "\"output_index\":3,", "", "\"output_index\":1.5,", "\"output_index\":-2,"][..]);
+            let item_id = *r.pick(&["", "\"item_id\":\"\",", "\"item_id\":\"it_1\",", "\"item_id\":7,"][..]);
+            let ty = *r.pick(&["response.function_call_arguments.delta", "response.function_call_arguments.done", "response.output_text.delta"][..]);
+            one(format!("{{\"type\":\"{ty}\",\"sequence_number\":4,{idx}{item_id}\"delta\":\"{{\",\"arguments\":\"{{}}\"}}"))
+        }
         0 | 1 | 2 => one(format!("{{\"type\":\"{OTD}\",\"delta\":{}}}", r.pick(&STRS[..]))),
         3 => vec![format!("{{\"type\":\"{OTD}\","), format!("\"sequence_number\":{},", r.below(9)), format!("\"delta\":{}}}", r.pick(&STRS[..]))],
         4 => one("[DONE]".to_string()),
@@ -593,7 +679,10 @@ fn check_expected(frames: &[Event], seq_end: u64, c: &PipeCase, expected: Option
                         Some(m) => rest.pop().as_ref() == Some(m),
                         None => !rest.iter().any(|e| e.starts_with("event name '")),
                     };
-                    let val_ok = c.compat || rest == rip_openresponses::validate_stream_event(v).err().unwrap_or_default();
+                    // the other errors are the stream-event validator's on the (normalised, in compat mode) value, the
+                    // response errors the response validator's on its `response` member
+                    let (_, want_errs, want_rerrs) = own_validation(v, c.compat);
+                    let val_ok = rest == want_errs && response_errors == &want_rerrs;
                     *status == ProviderEventStatus::Event && data.as_ref() == Some(v) && fraw.is_none() && event_name == ev && reparsed && mis_ok && val_ok
                 }
             }
